@@ -11,6 +11,9 @@ import (
 	"github.com/DemoHn/Zn/pkg/syntax/zh"
 )
 
+// varInputModuleName - how an input-variable text is called in an error report
+const varInputModuleName = "输入变量"
+
 func evalVarAssignBlockText(vm *r.VM, blockText string) (r.ElementMap, error) {
 	// #0. for empty string, skip parsing directly
 	if len(blockText) == 0 {
@@ -30,7 +33,9 @@ func evalVarAssignBlockText(vm *r.VM, blockText string) (r.ElementMap, error) {
 
 	programAST, err := parser.Parse()
 	if err != nil {
-		return nil, zerr.NewErrorSLOT(fmt.Sprintf("解析 (varInput) 出现错误：‘%s’", blockText))
+		// a syntax error of the text is reported like that of a program: with its code and
+		// the line it is found in
+		return nil, WrapSyntaxError(parser, varInputModuleName, err)
 	}
 
 	// #3. assert AST contains a bunch of varAssignExpr
@@ -81,7 +86,7 @@ func evalExpressionText(vm *r.VM, exprStr string) (r.Element, error) {
 
 	programAST, err := parser.Parse()
 	if err != nil {
-		return nil, zerr.NewErrorSLOT(fmt.Sprintf("解析表达式出现错误：‘%s’", exprStr))
+		return nil, WrapSyntaxError(parser, varInputModuleName, err)
 	}
 
 	// #3. assert AST to be a single expression
